@@ -90,4 +90,17 @@ inline void CheckTotal(uint32_t expected, uint32_t actual) {
 		std::runtime_error("Totals do not match: " + std::to_string(actual));
 	}
 }
+
+// R-ORDER (no delete on refusal): the clean-up handler also covers the check made before the file is created
+inline void SaveChecked(const std::string& path, std::size_t size) {
+	try {
+		if (size > UINT32_MAX) { throw std::runtime_error("too large"); }
+		Stream::FileWriter writer(path);
+		writer.Write(static_cast<uint32_t>(size));
+	}
+	catch (...) {
+		XFile::DeletePath(path);
+		throw;
+	}
+}
 }
